@@ -44,6 +44,8 @@ def strategy(tier):
   single = st.fixed_dictionaries({
       'kind': st.just('singleton'),
       'open_delay_ms': st.sampled_from([[0], [5], [0, 10], [3, 0]]),
+      # a transport's Close() reports Closed at once but may take time (it yields) to release its socket
+      'close_delay_ms': st.sampled_from([0, 0, 4]),
       'ops': sized_list(weighted(
           (2, st.just(['open'])), (1, st.just(['close'])),
           (7, st.just(['request'])), (2, st.tuples(st.just('burst'), st.integers(2, 4)).map(list)),
@@ -54,6 +56,7 @@ def strategy(tier):
   ref = st.fixed_dictionaries({
       'kind': st.just('refcount'),
       'open_delay_ms': st.sampled_from([0, 5]),
+      'close_delay_ms': st.sampled_from([0, 0, 4]),
       'ops': sized_list(weighted((4, st.just(['open'])), (5, st.just(['close'])),
                                  (1, st.tuples(st.just('advance'), st.sampled_from([1, 10])).map(list))), 0, 40),
   })
@@ -68,6 +71,8 @@ def strategy(tier):
 
 
 class Conn(ClientMessageSink):
+  close_delay = 0.0
+
   def __init__(self, idx, delay):
     ClientMessageSink.__init__(self)
     self.idx = idx
@@ -106,6 +111,8 @@ class Conn(ClientMessageSink):
     self.close_calls += 1
     self._state = ChannelState.Closed
     self._ar = None
+    if self.close_delay:
+      gevent.sleep(self.close_delay)
 
   def AsyncProcessRequest(self, sink_stack, msg, stream, headers):
     r = msg.properties['__vf_req']
@@ -121,10 +128,12 @@ class Provider(SinkProviderBase):
   def __init__(self, delays):
     SinkProviderBase.__init__(self)
     self.delays = delays
+    self.close_delay = 0.0
     self.conns = []
 
   def CreateSink(self, properties):
     c = Conn(len(self.conns), self.delays[len(self.conns) % len(self.delays)] / 1000.0)
+    c.close_delay = self.close_delay
     self.conns.append(c)
     return c
 
@@ -155,6 +164,7 @@ def _exec_singleton(plan):
   flags = set()
   prov_top = SingletonPoolSink.Builder()
   prov = Provider(plan['open_delay_ms'])
+  prov.close_delay = plan.get('close_delay_ms', 0) / 1000.0
   prov_top.next_provider = prov
   pool = prov_top.CreateSink({SinkProperties.Label: 'svc', SinkProperties.Endpoint: EP})
   reqs = []
@@ -198,7 +208,12 @@ def _exec_singleton(plan):
     elif k == 'close':
       if holders[0] > 0:
         holders[0] -= 1
-        pool.Close()
+        if prov.close_delay:
+          gevent.spawn(pool.Close)      # the holder's greenlet; others may use the pool while the transport is still closing
+          if holders[0] == 0:
+            flags.add('slow_close_of_last_holder')
+        else:
+          pool.Close()
         if holders[0] == 0:
           pool_open = False
           for r in reqs:
@@ -251,10 +266,13 @@ def _exec_singleton(plan):
 
 
 class MockSink(ClientMessageSink):
-  def __init__(self, delay):
+  def __init__(self, delay, close_delay=0.0):
     ClientMessageSink.__init__(self)
     self._st = ChannelState.Open
     self.delay = delay
+    self.close_delay = close_delay
+    self.closing = 0
+    self.open_during_close = 0
     self.opens = 0
     self.closes = 0
     self._ar = None
@@ -265,6 +283,8 @@ class MockSink(ClientMessageSink):
 
   def Open(self):
     self.opens += 1
+    if self.closing:
+      self.open_during_close += 1
     ar = self._ar = AsyncResult()
     if self.delay:
       g = gevent.Greenlet(ar.set, True)
@@ -275,6 +295,12 @@ class MockSink(ClientMessageSink):
 
   def Close(self):
     self.closes += 1
+    if self.close_delay:
+      self.closing += 1
+      try:
+        gevent.sleep(self.close_delay)
+      finally:
+        self.closing -= 1
 
   def AsyncProcessRequest(self, *a):
     pass
@@ -284,24 +310,31 @@ class MockSink(ClientMessageSink):
 
 
 def _exec_refcount(plan):
-  under = MockSink(plan['open_delay_ms'] / 1000.0)
+  cd = plan.get('close_delay_ms', 0) / 1000.0
+  under = MockSink(plan['open_delay_ms'] / 1000.0, cd)
   rc = RefCountedSink(under)
   count = 0
   want_opens = want_closes = 0
-  cur_ar = None
   surplus = False
+  results = []        # (generation, open result) per Open, in issue order
+  gen = 0
+  slow = False
+
+  def do_open(g_):
+    ar = rc.Open()
+    results.append((g_, ar))
+
   for step, op in enumerate(plan['ops']):
     where = '(step %d: %r)' % (step, op)
     if op[0] == 'open':
-      ar = rc.Open()
       count += 1
       if count == 1:
         want_opens += 1
-        cur_ar = ar
-      elif ar is not cur_ar:
-        raise Violation(ID, 'refcount-open-result', 'holder %d got a different open result than the first holder %s' % (count, where))
-      if ar is None:
-        raise Violation(ID, 'refcount-open-result', 'Open() returned None %s' % where)
+        gen += 1
+      if under.closing:
+        slow = True
+      # every holder acts from its own greenlet: an Open may arrive while the underlying Close is still in progress
+      gevent.spawn(do_open, gen)
     elif op[0] == 'close':
       if count == 0:
         surplus = True
@@ -309,15 +342,35 @@ def _exec_refcount(plan):
         count -= 1
         if count == 0:
           want_closes += 1
-      rc.Close()
+      gevent.spawn(rc.Close)
     else:
       advance(op[1] / 1000.0)
     settle()
-    if under.opens != want_opens:
-      raise Violation(ID, 'refcount-open-count', 'underlying Open called %d times, expected %d %s' % (under.opens, want_opens, where))
-    if under.closes != want_closes:
-      raise Violation(ID, 'refcount-close-count', 'underlying Close called %d times, expected %d %s' % (under.closes, want_closes, where))
-  return Outcome(nontrivial=['surplus close'] if surplus else None, classes=['refcount'] + (['surplus_close'] if surplus else []))
+    if under.open_during_close:
+      raise Violation(ID, 'refcount-open-during-close', 'underlying Open() was called while the underlying Close() was still in progress %s' % where)
+    if not cd:
+      if under.opens != want_opens:
+        raise Violation(ID, 'refcount-open-count', 'underlying Open called %d times, expected %d %s' % (under.opens, want_opens, where))
+      if under.closes != want_closes:
+        raise Violation(ID, 'refcount-close-count', 'underlying Close called %d times, expected %d %s' % (under.closes, want_closes, where))
+  advance(0.05)
+  where = '(final)'
+  if under.open_during_close:
+    raise Violation(ID, 'refcount-open-during-close', 'underlying Open() was called while the underlying Close() was still in progress %s' % where)
+  if under.opens != want_opens:
+    raise Violation(ID, 'refcount-open-count', 'underlying Open called %d times, expected %d %s' % (under.opens, want_opens, where))
+  if under.closes != want_closes:
+    raise Violation(ID, 'refcount-close-count', 'underlying Close called %d times, expected %d %s' % (under.closes, want_closes, where))
+  if len(results) != len([o for o in plan['ops'] if o[0] == 'open']):
+    raise Violation(ID, 'refcount-open-result', 'only %d of the Open() calls returned %s' % (len(results), where))
+  first = {}
+  for g_, ar in results:
+    if ar is None:
+      raise Violation(ID, 'refcount-open-result', 'Open() returned None %s' % where)
+    if first.setdefault(g_, ar) is not ar:
+      raise Violation(ID, 'refcount-open-result', 'two holders of the same open connection got different open results %s' % where)
+  nt = (['surplus close'] if surplus else []) + (['open during a slow close'] if slow else [])
+  return Outcome(nontrivial=nt or None, classes=['refcount'] + (['surplus_close'] if surplus else []) + (['open_during_slow_close'] if slow else []))
 
 
 class _KeyProvider(SinkProviderBase):
